@@ -5,6 +5,8 @@ import concurrent.futures, json, os, subprocess, sys, time
 from common import *
 
 MAX_VIOLATIONS = 40
+ABORT = [0]   # violations seen so far by all workers of this process
+RUN_TIMEOUT = 10   # seconds without any output after which a harness process is declared hung (watchdog for busy loops)
 CHUNK = 300   # runs per harness process (processes are recycled so that in-process history stays short)
 
 
@@ -32,10 +34,12 @@ class Worker:
         while left > 0:
             if deadline and time.time() > deadline:
                 break
+            if ABORT[0] >= MAX_VIOLATIONS:   # the tree is broken anyway: stop exploring
+                break
             cmd = bin_cmd(self.binary) + ["--seeds", str(nxt), str(min(left, self.chunk)), str(self.stride), "--tier", str(self.tier_num), "--variant", self.variant] + self.extra
             if self.cpu is not None:   # all threads of one simulated process on one core: baton passing stays cheap
                 cmd = ["taskset", "-c", str(self.cpu)] + cmd
-            p = subprocess.run(cmd, stdout=subprocess.PIPE, stderr=subprocess.PIPE, text=True, env=self.env)
+            p = run_watched(cmd, self.env)
             done = 0
             last_seed = None
             for line in p.stdout.splitlines():
@@ -49,6 +53,8 @@ class Worker:
                 if rec["cls"] == "memory-error":
                     rec["detail"] = sanitizer_summary(p.stderr)
                 self.records.append(rec)
+                if rec["cls"] != "ok":
+                    ABORT[0] += 1
                 done += 1
                 last_seed = rec["seed"]
             if p.returncode == 0:
@@ -60,12 +66,42 @@ class Worker:
             if done == 0 or self.records[-1]["cls"] == "ok":
                 # the process died without reporting the run it was in: synthesise a record for that seed
                 seed = nxt if last_seed is None else last_seed + self.stride
-                self.records.append({"seed": seed, "cls": "crash", "variant": self.variant, "detail": "exit status %d: %s" % (p.returncode, sanitizer_summary(p.stderr) or p.stderr[-300:]), "hash": "", "shash": "", "steps": 0, "ctr": {}, "abs": []})
+                self.records.append({"seed": seed, "cls": "hang" if p.returncode == -999 else "crash", "variant": self.variant, "detail": "exit status %d: %s" % (p.returncode, sanitizer_summary(p.stderr) or p.stderr[-300:]), "hash": "", "shash": "", "steps": 0, "ctr": {}, "abs": []})
                 done += 1
                 last_seed = seed
+                ABORT[0] += 1
             nxt = last_seed + self.stride
             left -= done
         return self
+
+
+def run_watched(cmd, env, idle_limit=None):
+    """runs a harness process; it is killed when it prints nothing for 'idle_limit' seconds (wall-clock watchdog: a run that spins
+    outside any scheduling point cannot be seen by the step budget).  Returns an object with returncode / stdout / stderr."""
+    import threading
+    idle_limit = idle_limit or RUN_TIMEOUT
+    pr = subprocess.Popen(cmd, stdout=subprocess.PIPE, stderr=subprocess.PIPE, text=True, env=env)
+    out, err, last = [], [], [time.time()]
+
+    def rd(stream, sink):
+        for line in stream:
+            sink.append(line); last[0] = time.time()
+    t1 = threading.Thread(target=rd, args=(pr.stdout, out)); t2 = threading.Thread(target=rd, args=(pr.stderr, err))
+    t1.start(); t2.start()
+    hung = False
+    while pr.poll() is None:
+        time.sleep(0.05)
+        if time.time() - last[0] > (idle_limit if out else 8 * idle_limit):   # start-up (sanitizer, warm-up history) is given more time
+            hung = True
+            pr.kill()
+            break
+    pr.wait(); t1.join(); t2.join()
+
+    class P:
+        pass
+    p = P(); p.returncode = -999 if hung else pr.returncode; p.stdout = "".join(out)
+    p.stderr = "WATCHDOG: no result within %d s of wall clock (busy loop outside any scheduling point)" % idle_limit if hung else "".join(err)
+    return p
 
 
 def sanitizer_summary(stderr):
@@ -84,7 +120,10 @@ def replay_once(binary, rec, plan, decisions, tmp_path, env=None):
     if decisions is not None:
         obj["decisions"] = decisions
     json.dump(obj, open(tmp_path, "w"))
-    p = subprocess.run(bin_cmd(binary) + ["--replay", tmp_path], stdout=subprocess.PIPE, stderr=subprocess.PIPE, text=True, env=env)
+    try:
+        p = subprocess.run(bin_cmd(binary) + ["--replay", tmp_path], stdout=subprocess.PIPE, stderr=subprocess.PIPE, text=True, env=env, timeout=RUN_TIMEOUT)
+    except subprocess.TimeoutExpired:
+        return "hang", {"detail": "WATCHDOG: no result within the wall-clock limit (busy loop outside any scheduling point)"}
     out = None
     for line in p.stdout.splitlines():
         if line.startswith("{"):
@@ -142,8 +181,9 @@ def minimise(binary, rec, signature, tmp_path, max_trials=400, env=None):
     import threading
     cls, sig = rec["cls"], signature(rec)
     plan = {"params": list(rec["plan"]["params"]), "ops": [list(o) for o in rec["plan"]["ops"]], "faults": [list(f) for f in rec["plan"]["faults"]]}
-    dec = list(rec.get("decisions", []))
-    budget = [max_trials]
+    prng_mode = rec.get("decisions") is None    # no recorded decisions: the schedule is re-derived from cfg.seed on every replay
+    dec = None if prng_mode else list(rec.get("decisions", []))
+    budget = [max_trials if not prng_mode else min(max_trials, 40)]
     trials = [0]
     lock = threading.Lock()
 
@@ -160,6 +200,7 @@ def minimise(binary, rec, signature, tmp_path, max_trials=400, env=None):
         if c != cls:
             return False
         o.setdefault("variant", rec.get("variant", ""))
+        o.setdefault("cls", c)
         return signature(o) == sig
 
     if not same(plan, dec):
@@ -175,6 +216,13 @@ def minimise(binary, rec, signature, tmp_path, max_trials=400, env=None):
                 plan["params"] = q
             else:
                 break
+    if prng_mode:
+        c, o = replay_once(binary, rec, plan, None, tmp_path, env)
+        if c != cls:
+            return None, trials[0]
+        return {"property": rec.get("property", ""), "seed": rec["seed"], "variant": rec.get("variant", ""), "cfg": rec["cfg"], "plan": plan, "class": cls, "signature": sig, "detail": o.get("detail", ""),
+                "hash": o.get("hash", ""), "text": o.get("text", rec.get("text", "")), "original": {"ops": len(rec["plan"]["ops"]), "faults": len(rec["plan"]["faults"])},
+                "minimised": {"ops": len(plan["ops"]), "faults": len(plan["faults"]), "schedule": "re-derived from the seed"}, "trials": trials[0]}, trials[0]
     # decisions: shortest prefix (the default policy "keep running the current thread" takes over afterwards)
     lo, hi = 0, len(dec)
     while lo < hi and budget[0] > 0:
@@ -342,7 +390,7 @@ def run_sim_check(spec, args):
         gi, key = item
         cls, sig = key
         lines = []
-        g = sorted(groups[key], key=lambda r: (len(r.get("decisions", [])), r["seed"]))
+        g = sorted(groups[key], key=lambda r: (len(r.get("decisions") or []), r["seed"]))
         rec = g[0]
         rec["property"] = pid
         rec["param_min"] = spec.get("param_min", [])
@@ -350,7 +398,15 @@ def run_sim_check(spec, args):
         path = os.path.join(rd, "%s_%s_%d.json" % (cls, sha(sig)[:8], rec["seed"]))
         mini = None
         if "plan" not in rec:
-            # died without a result line (hard crash): replay by seed is all we have
+            # the run never reported (hard crash, watchdog): regenerate its plan from the seed; the schedule is then re-derived from the
+            # same seed on replay (PRNG mode), which reproduces the run exactly
+            pp = subprocess.run(bin_cmd(binaries[rec["variant"]]) + ["--seeds", str(rec["seed"]), "1", "1", "--tier", str(tier_num), "--variant", rec["variant"], "--plan-only"], stdout=subprocess.PIPE, stderr=subprocess.PIPE, text=True, env=env)
+            for line in pp.stdout.splitlines():
+                if line.startswith("{"):
+                    pr = json.loads(line)
+                    rec["plan"], rec["cfg"], rec["text"] = pr["plan"], pr["cfg"], pr.get("text", "")
+            rec["decisions"] = None
+        if "plan" not in rec:
             json.dump({"property": pid, "seed": rec["seed"], "variant": rec["variant"], "class": cls, "detail": rec.get("detail", "")}, open(path, "w"), indent=1)
         else:
             mini, trials = minimise(binaries[rec["variant"]], rec, sig_fn, path + ".tmp", max_trials=(100 if gi >= 6 or kf else 400), env=env)
@@ -359,8 +415,8 @@ def run_sim_check(spec, args):
                 return None
             json.dump(mini, open(path, "w"), indent=1)
             # gate: the minimised file must fail the same way, twice, in fresh processes
-            c1, o1 = replay_once(binaries[rec["variant"]], mini, mini["plan"], mini["decisions"], path + ".chk1", env)
-            c2, o2 = replay_once(binaries[rec["variant"]], mini, mini["plan"], mini["decisions"], path + ".chk2", env)
+            c1, o1 = replay_once(binaries[rec["variant"]], mini, mini["plan"], mini.get("decisions"), path + ".chk1", env)
+            c2, o2 = replay_once(binaries[rec["variant"]], mini, mini["plan"], mini.get("decisions"), path + ".chk2", env)
             os.remove(path + ".chk1"); os.remove(path + ".chk2")
             if c1 != cls or c2 != cls or o1.get("hash") != o2.get("hash"):
                 machinery_errors.append("minimised replay of %s is not stable (%s/%s)" % (cls, c1, c2))
